@@ -25,6 +25,7 @@ CALL_HOOKS = []        # f(func, args, kw) -> (True, value) | None
 GETATTR_HOOKS = []     # f(obj, name) -> value | NotImplemented  (concrete receivers)
 CONCRETIZERS = []      # f(value, model) -> value | NotImplemented
 NATIVE_TYPES = set()   # classes whose methods are always called natively (stubs, ctx)
+NATIVE_FUNCS = set()   # plain functions that accept symbolic arguments natively (model helpers)
 INSTRUMENT_PREFIXES = ["ofxtools", "harness"]
 INSTRUMENT_MODULES = {"xml.sax.saxutils"}
 WARNINGS = []          # recorded warnings.warn calls on the current path: (category, msg)
@@ -1340,6 +1341,8 @@ def call(f, *args, **kw):
             return r[1]
     try:
         model = MODELS.get(f)
+        if model is None and f in NATIVE_FUNCS:
+            return f(*args, **kw)
     except TypeError:
         model = None
     if model is not None and (f in ALWAYS_MODEL or deep_sym(args) or deep_sym(kw)):
